@@ -461,6 +461,18 @@ func KTOf(s *Sx) func(any) fp.Try[any] {
 	case "kpanic":
 		id, p := s.List[1].Int(), s.List[2].Int()
 		return func(x any) fp.Try[any] { Emit("k%d:%s", id, Show(x)); panic(p) }
+	case "kfailsent": // fails with the library's own sentinel error
+		id := s.List[1].Int()
+		return func(x any) fp.Try[any] { Emit("k%d:%s", id, Show(x)); return fp.Failure[any](fp.ErrOptionEmpty) }
+	case "kfailifsent":
+		id, m := s.List[1].Int(), s.List[2].Int()
+		return func(x any) fp.Try[any] {
+			Emit("k%d:%s", id, Show(x))
+			if Emod(AsInt(x), m) == 0 {
+				return fp.Failure[any](fp.ErrOptionEmpty)
+			}
+			return fp.Success[any](AsInt(x) + 1)
+		}
 	case "ksuccnil":
 		id := s.List[1].Int()
 		return func(x any) fp.Try[any] { Emit("k%d:%s", id, Show(x)); return fp.Success[any](nil) }
@@ -475,8 +487,14 @@ func GenKT(r *Rng, allowPanic bool) *Sx {
 	case k == 0 && allowPanic:
 		return L(A("kpanic"), I(id), I(r.Range(1, 9)))
 	case k <= 2:
+		if r.Intn(5) == 0 {
+			return L(A("kfailsent"), I(id))
+		}
 		return L(A("kfail"), I(id), I(r.Range(1, 9)))
 	case k <= 5:
+		if r.Intn(6) == 0 {
+			return L(A("kfailifsent"), I(id), I(r.Range(2, 3)))
+		}
 		return L(A("kfailif"), I(id), I(r.Range(2, 3)), I(r.Range(1, 9)))
 	case k == 6 && r.Intn(3) == 0:
 		return L(A("ksuccnil"), I(id))
